@@ -862,3 +862,16 @@ Proof.
          | (if ?c then _ else _) = _ => destruct c; [inversion H; subst; simpl; auto|]
          end; try discriminate.
 Qed.
+
+(* C14: at that point both notification pairs have been delivered - exactly one connect pair and one
+   disconnect pair for the link *)
+Lemma teardown_hooks_complete_lemma calls s :
+  lreachable fixed calls s -> memN 0%N (cancelled s) = true -> reads_failed s -> quiescent s ->
+  rev (hooks_of (evs s)) = [(true, false); (true, true); (false, false); (false, true)].
+Proof.
+  intros Hr Hc Hf Hq. destruct (teardown_clean_lemma calls s Hr Hc Hf Hq) as (Hall & _).
+  pose proof (InvH_reachable calls s Hr) as HH. unfold InvH in HH.
+  destruct (tget (threads s) TSetup) as [st|] eqn:Es; [|contradiction].
+  destruct (Hall _ _ Es ltac:(discriminate)) as [Ha|Hd]; destruct st; simpl in *; try discriminate; try contradiction.
+  destruct HH as (A & _). rewrite A. reflexivity.
+Qed.
